@@ -1461,6 +1461,45 @@ def argmin(a, axis=None):
     return best
 
 
+def tril_indices(n, k=0, m=None):
+    n = _index(n)
+    m = n if m is None else _index(m)
+    rows, cols = [], []
+    for i in range(n):
+        for j in range(m):
+            if j - i <= k:
+                rows.append(i)
+                cols.append(j)
+    return (ndarray._new(rows, (len(rows),), 'int'), ndarray._new(cols, (len(cols),), 'int'))
+
+
+def triu_indices(n, k=0, m=None):
+    n = _index(n)
+    m = n if m is None else _index(m)
+    rows, cols = [], []
+    for i in range(n):
+        for j in range(m):
+            if j - i >= k:
+                rows.append(i)
+                cols.append(j)
+    return (ndarray._new(rows, (len(rows),), 'int'), ndarray._new(cols, (len(cols),), 'int'))
+
+
+def expand_dims(a, axis):
+    """a view with a new axis of length one (numpy returns a view, never a copy)"""
+    a = asarray(a)
+    axis = _index(axis)
+    nd = a.ndim + 1
+    if axis < 0:
+        axis += nd
+    if not 0 <= axis < nd:
+        raise ValueError("axis out of bounds")
+    shape = a.shape[:axis] + (1,) + a.shape[axis:]
+    inner = a.strides[axis] * a.shape[axis] if axis < a.ndim else 1
+    strides = a.strides[:axis] + (inner,) + a.strides[axis:]
+    return ndarray(a.buf, a.off, shape, strides, a.dt)
+
+
 def unravel_index(i, shape):
     i = _index(i)
     shape = tuple(shape)
